@@ -68,6 +68,9 @@ def _case(draw):
             leaf = specs.spec_strategy(depth=draw(st.sampled_from([0, 0, 1])), sat=True, alias=False)
             for k in "abc":
                 c[k] = {"t": "any", "alts": draw(st.lists(leaf, min_size=3, max_size=3))}
+        if draw(st.integers(0, 4)) == 0:
+            # one operand is a bare schema.any (no alternatives of its own: nothing to flatten, accepts everything)
+            c[draw(st.sampled_from("abc"))] = {"t": "any"}
         c["values"] = _probe_values(draw, [c["a"], c["b"], c["c"]])
         # values an operand accepts through a subclass relation: bool under int, datetime under date, instances of
         # dict subclasses under dict ...
